@@ -203,9 +203,59 @@ def judge (impl : String) (ctxs : List Ctx) : String :=
         else "FAIL:" ++ algoName c.algo ++ "-bad-result"
     go es ctxs
 
+/-! ### gslb histories: `g=<id>=<w>,..;<step>;..` with steps
+      gbal                 BalanceGslb.Balance(req)          → `ret`
+      grl:<id>=<w>,..      BalanceGslb.Reload(conf)           → `ok` | `rej`
+      gbr | gsb | gss      BackendReload / SetGslbBasic / SetSlowStart → `ret`
+      gst                  (hook) dump of the sub-cluster table → `st:<id>=<w>,..|<totalWeight>|<single>|<avail>`
+    an operation that does not return within the harness' deadline is `HANG` (history stops) -/
+
+def showG (g : G) : String :=
+  "st:" ++ (if g.subs.isEmpty then "-" else ",".intercalate (g.subs.map fun s => toString s.name ++ "=" ++ toString s.weight))
+    ++ "|" ++ toString g.total ++ "|" ++ (if g.single then "1" else "0") ++ "|" ++ toString g.avail
+
+def runG (hd : String) (steps : List String) (impl : String) : Ans :=
+  match parseConf (hd.drop 2).toString with
+  | none => { model := "bad-op", verdict := "skip" }
+  | some conf =>
+    match gInit conf with
+    | none => { model := "bad-op", verdict := "skip" }
+    | some g0 =>
+      -- (state, outputs reversed, stopped, bad, sawRejThenOp)
+      let r := steps.foldl (fun (acc : G × List String × Bool × Bool × Nat) st =>
+        let (g, outs, stopped, bad, rej) := acc
+        if stopped || bad then acc else
+        let fin := fun (p : GRes × G) (isRej : Bool) =>
+          match p.1 with
+          | .hang => (p.2, "HANG" :: outs, true, bad, rej)
+          | .ret s => (p.2, s :: outs, false, bad, if isRej then 1 else if rej == 1 then 2 else rej)
+        match st.splitOn ":" with
+        | ["gbal"] => fin (gStep g .bal) false
+        | ["gbr"] => fin (gStep g .other) false
+        | ["gsb"] => fin (gStep g .other) false
+        | ["gss"] => fin (gStep g .other) false
+        | ["gst"] => (g, showG g :: outs, false, bad, rej)
+        | ["grl", c] =>
+          match parseConf c with
+          | some cf => fin (gStep g (.reload cf)) (decide (confTotal cf ≤ 0))
+          | none => (g, outs, stopped, true, rej)
+        | _ => (g, outs, stopped, true, rej)) (g0, [], false, false, 0)
+      let (_, outs, _, bad, rej) := r
+      if bad then { model := "bad-op", verdict := "skip" } else
+      let toks := impl.splitOn " "
+      let verdict :=
+        if impl == "skipped-after-hangs" || impl == "bad-op" then "skip"
+        else if toks.any (· == "HANG") then "FAIL:gslb-hang"
+        else if toks.any (·.startsWith "PANIC:") then "FAIL:gslb-panic"
+        else "ok"
+      { model := if outs.isEmpty then "-" else " ".intercalate outs.reverse
+        verdict := verdict
+        tags := ["gslb"] ++ (if rej ≥ 1 then ["rejected-reload"] else []) ++ (if rej == 2 then ["nt"] else []) }
+
 def run (op impl : String) : Ans :=
   match op.splitOn ";" with
   | hd :: steps =>
+    if hd.startsWith "g=" then runG hd steps impl else
     if !hd.startsWith "w=" then { model := "bad-op", verdict := "skip" } else
     match parseInts (hd.drop 2).toString with
     | none => { model := "bad-op", verdict := "skip" }
